@@ -24,6 +24,7 @@ RULE += ("  " + "Also: a back end that acknowledges writes late; wait_future_tim
 RULE += ("  " + 'Also (round 7): ABOR while the worker sleeps behind a speed limit; a second ABOR and / or PWD written in one piece with the ABOR (answered after it, in order; executor jobs and back-end calls with a duration).')
 RULE += ("  " + 'Also (round 8): USER for a password account right before the ABOR (the session is logged out, the ABOR still stops and answers); stalled download with socket_timeout, ABOR positions up to the stall.')
 RULE += ("  " + 'Also (round 9): storage writes that take their time (the write that is in progress when ABOR is confirmed); the file is compared at the moment the 226 of ABOR arrives and again later (it must not move).')
+RULE += ("  " + 'Also (round 11): USER for an unknown name (530, no anonymous fall-back) right before the ABOR.')
 ASSUMPTIONS = [
     "in-memory network model; the peer is a raw FTP client, not aioftp's",
     "reply shapes accepted: [1xx, C, 226] with C in {2xx, 425, 426, 451} or [4xx/5xx, 226]; anything else, a missing or "
